@@ -22,7 +22,7 @@ ASSUMPTIONS = ["grammar: (C-)?[A-Z]{3}_[A-Za-z0-9]+-N(_N(_[STPI](-N)+)?)? with N
                "solutions are compared through CommonRoadSolutionReader.fromstring(CommonRoadSolutionWriter.dump())"]
 
 GRAMMAR = re.compile(r"(C-)?([A-Z]{3})_([A-Za-z0-9]+)-([1-9][0-9]*)(?:_([1-9][0-9]*)(?:_([STPI])((?:-[1-9][0-9]*)+))?)?\Z")
-MAPS = ["Test", "A9", "US101", "a", "x9Y0"]
+MAPS = ["Test", "A9", "US101", "a", "x9Y0", "101", "9a"]      # alphanumeric names, also ones that start with a digit
 MAP_IDS = [1, 2, 10, 33, 1000]      # 1000, 300, 999: beyond the small-integer cache (value equality, not identity)
 CONFS = [None, 1, 2, 10, 300]
 BEHS = [None, "S", "T", "P", "I"]
@@ -212,6 +212,14 @@ def _check_sol(spec, res):
         res.violation(f"C13|Solution|n={n}|version|parse-mismatch", bid, case)
     if back.benchmark_id != bid:
         res.violation(f"C13|Solution|n={n}|benchmark_id|not-a-fixpoint", f"{bid} -> {back.benchmark_id}", case)
+    # the parsed objects belong to the caller: editing them must not change what a later parse of the same document yields
+    try:
+        back.scenario_id.configuration_id = 77; back.scenario_id.cooperative = not back.scenario_id.cooperative; back.scenario_id.map_id = 55
+        again = CommonRoadSolutionReader.fromstring(text)
+        if not (again.scenario_id == sol.scenario_id) or str(again.scenario_id) != str(sol.scenario_id) or again.benchmark_id != bid:
+            res.violation(f"C13|Solution|second-parse-after-editing-the-first-result|scenario_id-differs", f"{bid}: second parse gives {again.scenario_id}", case)
+    except Exception as e:
+        res.violation(f"C13|Solution|second-parse|raises:{type(e).__name__}", f"{bid}: {e!r}", case)
     res.outcomes[f"sol-n={n}"] += 1
 
 
